@@ -91,7 +91,7 @@ def rules_with_canon(pid, files, extra=None):
 
 def rules_C07(ctx):
     return total_for("C07", ctx) + overflow_for("C07", ctx) + [structural.maskkind(ctx), flag.lowlimb(ctx), variant.run(ctx, "all", ["conv"]),
-                                    guard.try_from_u64_model(ctx), castfit.run(ctx),
+                                    guard.try_from_u64_model(ctx), castfit.run(ctx), castfit.payload_limbs(ctx),
                                     flag.feasible_failure(ctx, "all", {"crate::Uint::<BITS, LIMBS>::overflowing_from_limbs_slice"})]
 
 
@@ -180,7 +180,7 @@ def rules_C17(ctx):
 
 
 def rules_C08(ctx):
-    return total_for("C08", ctx) + overflow_for("C08", ctx) + [canon_for(ctx, {"src/bytes.rs"}), guard.buffers(ctx), guard.slice_length(ctx),
+    return total_for("C08", ctx) + overflow_for("C08", ctx) + [canon_for(ctx, {"src/bytes.rs"}), guard.buffers(ctx), guard.slice_length(ctx), guard.write_extent(ctx),
                                     flag.feasible_failure(ctx, "all", {"crate::bytes::<impl crate::Uint<BITS, LIMBS>>::try_from_be_slice",
                                                                        "crate::bytes::<impl crate::Uint<BITS, LIMBS>>::try_from_le_slice"})]
 
